@@ -169,10 +169,15 @@ def gen(rng, tier):
         if k == "simphenotype":
             pool_ids = haps[:3]
         ids = None
-        if rng.random() < 0.7:
+        many_unknown = k == "simphenotype" and (t // len(kinds)) % 2 == 1  # every other simphenotype case
+        if many_unknown or rng.random() < 0.7:
             ids = rng.sample(pool_ids, rng.randint(1, len(pool_ids)))  # in a non-alphabetical order
-            if rng.random() < 0.25:
+            if not many_unknown and rng.random() < 0.25:
                 ids.insert(rng.randrange(len(ids) + 1), "nosuchID")
+            elif many_unknown or rng.random() < 0.2:
+                # many unknown IDs (more than any message would list in full), scattered among the known ones
+                for i in range(rng.randint(6, 9)):
+                    ids.insert(rng.randrange(len(ids) + 1), f"nosuchID{i}x")
             if k == "ld" and c["from_gts"] and rng.random() < 0.5:
                 # as many unknown IDs as variants of the target haplotype that are not requested
                 tv = {"hapA": ["snpA", "snpC"], "hapB": ["snpB", "snpE"]}.get(c["target"], [])
